@@ -1,7 +1,7 @@
 (* C05 — flattening delivers every inner item once and honours the concurrency limit. *)
 From RxModel Require Import Flatten.
-From RxSpec Require Import FlattenSpec.
-From RxProofs Require FlattenLaws.
+From RxSpec Require Import FlattenSpec FlattenItems.
+From RxProofs Require FlattenLaws FlattenItemsLaws.
 Local Open Scope nat_scope.
 
 (* For every stimulus sequence (outer items that are synchronous or hot inner observables,
@@ -46,6 +46,30 @@ Theorem C05_count_exact :
     b = f_subscribed s /\ within n (f_subscribed s) = true.
 Proof. exact FlattenLaws.flatten_count_exact. Qed.
 
+(* every item of every inner observable exactly once, in the inner observable's own order: the
+   trace is walked with a state computed from the stimuli and the subscription events alone; a
+   notification of a subscribed hot inner observable owes exactly one item (one per subscription
+   of that subject, in subscription order), a synchronous inner observable owes its whole script
+   right after it is subscribed, and no item occurs that is not owed *)
+Theorem C05_items_exactly_once :
+  forall n sts, valid_limit n -> items_exact_ok n sts (run_flatten n sts) = true.
+Proof. exact FlattenItemsLaws.flatten_items_exact. Qed.
+
+(* inner observables are subscribed in the order in which the outer stream emitted them, each
+   once: 0, 1, 2, ... *)
+Theorem C05_subscribed_in_outer_order :
+  forall n sts, valid_limit n -> subs_consecutive 0 (run_flatten n sts) = true.
+Proof. exact FlattenItemsLaws.flatten_subs_consecutive. Qed.
+
+(* concat (limit 1): the items of an inner observable lie between its subscription and its
+   completion, and no other inner observable's item does: the outer order is kept *)
+Theorem C05_concat_keeps_outer_order :
+  forall sts, concat_exclusive_ok (run_flatten (Some 1) sts) = true.
+Proof. exact FlattenItemsLaws.flatten_concat_exclusive. Qed.
+
+Check C05_items_exactly_once : forall n sts, valid_limit n -> items_exact_ok n sts (run_flatten n sts) = true.
+Check C05_subscribed_in_outer_order : forall n sts, valid_limit n -> subs_consecutive 0 (run_flatten n sts) = true.
+Check C05_concat_keeps_outer_order : forall sts, concat_exclusive_ok (run_flatten (Some 1) sts) = true.
 Check C05_no_stuck : forall n sts, valid_limit n -> no_stuck (run_flatten n sts) = true.
 Check C05_limit : forall n sts, valid_limit n -> peak_ok n 0 (run_flatten n sts) = true.
 Check C05_downstream_wf : forall n sts, valid_limit n -> wf (downstream (run_flatten n sts)) = true.
@@ -56,6 +80,9 @@ Check C05_done_not_late : forall n s b, valid_limit n -> FlattenLaws.reach n s b
 Check C05_count_exact : forall n s b, valid_limit n -> FlattenLaws.reach n s b -> f_alive s = true ->
     b = f_subscribed s /\ within n (f_subscribed s) = true.
 
+Print Assumptions C05_items_exactly_once.
+Print Assumptions C05_subscribed_in_outer_order.
+Print Assumptions C05_concat_keeps_outer_order.
 Print Assumptions C05_no_stuck.
 Print Assumptions C05_limit.
 Print Assumptions C05_downstream_wf.
@@ -75,3 +102,11 @@ Proof. vm_compute. reflexivity. Qed.
 
 Example C05_example_limit_valid : valid_limit (Some 1) /\ valid_limit None.
 Proof. split; exact I. Qed.
+
+(* the item predicate rejects a duplicated and a dropped item *)
+Example C05_example_items_rejects :
+  items_exact_ok (Some 1) [FOuter (ONext (IHot 0)); FInner 0 (Next (VZ 5%Z))]
+    [FMark 0; FSubscribed 0; FMark 1; FItem 0 (VZ 5%Z); FItem 0 (VZ 5%Z)] = false /\
+  items_exact_ok (Some 1) [FOuter (ONext (IHot 0)); FInner 0 (Next (VZ 5%Z))]
+    [FMark 0; FSubscribed 0; FMark 1] = false.
+Proof. vm_compute. split; reflexivity. Qed.
